@@ -348,6 +348,56 @@ def check_word_atomic(ctx):
                witness=f'select {bad[0][0]} from t' if bad else None)
 
 
+def check_entry_text(ctx):
+    """The text the lexer receives is the caller's text: parse_sql is interpreted with recording stand-ins for the lexer and the parser on statements that carry
+    literals and quoted names with every kind of content; what reaches `tokenize` must be the statement with only white space / semicolons removed at its ends.
+    A rewrite of the whole text before tokenisation knows nothing of token boundaries and changes the content of literals and quoted names."""
+    from ..interp import Interp, Obj, Raised, Env
+    INIT = 'mindsdb_sql/__init__.py'
+    fn = next((n for n in ctx.src.tree(INIT).body if isinstance(n, ast.FunctionDef) and n.name == 'parse_sql'), None)
+    ctx.need(fn is not None, 'parse_sql not found')
+    seen = []
+
+    class Lex:
+        _interp_safe = True
+        text = None
+
+        def tokenize(self, text, *a, **k):
+            seen.append(text)
+            self.text = text
+            return iter(())
+
+    class Par:
+        _interp_safe = True
+        error_info = None
+
+        def parse(self, tokens):
+            return 'AST'
+    contents = VALUE_PROBES + ['10\xa0000\xa0EUR', 'a\u2003b', 'tab\tin', 'two  spaces', 'MiXed Case', 'x\u200by', 'a\r\nb', '\x0c', 'a;;b', ' ; ']
+    n = 0
+    for c in contents:
+        for stmt in (f"select '{c}' from t", f"select `{c}` from t", f'select "{c}" as "{c}"', f"select 1 -- {c}\n from t"):
+            for tail in ('', ';', ' ;\n', '\n\n'):
+                text = stmt + tail
+                for d in DIALECTS:
+                    del seen[:]
+                    it = Interp.for_file(ctx.src, INIT, {}, {'get_lexer_parser': lambda *a, **k: (Lex(), Par())})
+                    n += 1
+                    try:
+                        it.call_function(fn, [text, d], {}, Env())
+                    except Raised as r:
+                        seen.append(f'<raises {r.exc_name}>')
+                    got = seen[0] if seen else None
+                    ok = False
+                    if isinstance(got, str) and got and not got.startswith('<raises') and got in text:
+                        i = text.index(got)
+                        ok = not text[:i].strip() and not text[i + len(got):].strip(' \t\r\n\f\v;') and stmt.strip() in got
+                    ctx.ob('C04.entry-text', f'{d}:{stmt!r}{tail!r}', ok,
+                           f'parse_sql({text!r}, {d!r}) hands the lexer {got!r}: the statement is rewritten before it is tokenised, so the content of literals and quoted '
+                           f'names is no longer what the caller wrote', file=INIT, line=fn.lineno, witness=text)
+    ctx.count('entry_text_probes', n)
+
+
 def check_identifier_paths(ctx):
     """path_str_to_parts splits at dots: it may only receive ID token text (which still carries its back-quotes); values of
     quote_string / dquote_string are already unquoted - dots inside them are content.  Also: no case change between the token
@@ -356,7 +406,10 @@ def check_identifier_paths(ctx):
     nsites = 0
     for d in DIALECTS:
         g = load_dialect(ctx.src, d)
-        ak = ActionKinds(g, model)
+        from ..actions import kinds_for
+        ak = kinds_for(ctx.src, d)
+        numeric = {nt for nt, v in ak.nt.items() if v.kinds and set(v.kinds) <= {'int', 'float'}}
+        ctx.need({'integer', 'float'} <= numeric, f'{d}: the integer / float nonterminals are not recognised as numeric ({sorted(numeric)})')
         for p in g.productions[1:]:
             if p.func is None or p.from_star:
                 continue
@@ -378,6 +431,10 @@ def check_identifier_paths(ctx):
                     elif isinstance(x, ast.Call) and dotted(x.func) == 'getattr' and len(x.args) >= 2 and norm(x.args[0]) == pvar \
                             and const_str(x.args[1]) in p.names:
                         out.add(p.rhs[p.names[x.args[1].value]])
+                    elif isinstance(x, ast.Call) and dotted(x.func) in ('str', 'repr', 'format') and x.args and sources(x.args[0], st) & numeric:
+                        out.add('#renumbered')
+                    elif isinstance(x, ast.FormattedValue) and sources(x.value, st) & numeric:
+                        out.add('#renumbered')
                 return out
 
             def transfer(s, st):
@@ -401,9 +458,16 @@ def check_identifier_paths(ctx):
                                     arg, kind = k.value, 'split'
                                 elif k.arg == 'parts':
                                     arg, kind = k.value, 'parts'
+                        elif isinstance(n.func, ast.Attribute) and n.func.attr in ('append', 'extend', 'insert') and n.args \
+                                and isinstance(n.func.value, ast.Attribute) and n.func.value.attr == 'parts':
+                            arg, kind = n.args[-1], 'parts'
                         if arg is None:
                             continue
                         src = sources(arg, st)
+                        ctx.count('identifier_spelling_sites')
+                        ctx.ob('C04.identifier-spelling', f'{d}:{fn.name}:{norm(n)[:50]}:{p}'[:160], '#renumbered' not in src,
+                               f'{d}: action `{fn.name}` for `{p}` makes a part of a name from the re-printed value of a number (`{norm(n)[:70]}`): the digits the '
+                               f'user wrote are not kept (`t.007` becomes the name `7`)', file=g.file, line=n.lineno, witness='select t.007 from t')
                         if kind == 'split':
                             ctx.count('identifier_split_sites')
                             q = src & QUOTED_SYMBOLS
@@ -569,6 +633,7 @@ def run(ctx):
     check_variables(ctx)
     check_identifier_paths(ctx)
     check_word_atomic(ctx)
+    check_entry_text(ctx)
     # numeric constants: the printer's text is one numeric literal of the library's own lexer that converts back to exactly the value (C07's table)
     from .. import core
     from . import C07
@@ -581,6 +646,7 @@ def run(ctx):
     check_identifier_encoder(ctx)
     ctx.sample({'value_probes': VALUE_PROBES[:10]})
     ctx.floor('string_decoders', 6)
+    ctx.floor('entry_text_probes', 1000)
     ctx.floor('literal_probes', 100)
     ctx.floor('variable_decoders', 4)
     ctx.floor('variable_probes', 60)
